@@ -103,7 +103,7 @@ def generate(rng, focus, tier="quick"):
     # order of creation
     pids_run = list(PIDS_DEFAULT)
     if rng.random() < 0.5:
-        pids_run = rng.sample(["b", "a", "p10", "p2", "Z", "m", "p1", "0009"], 6)
+        pids_run = rng.sample(["b", "a", "p10", "p2", "Z", "m", "p1", "0009", "7", "12"], 6)
     r = rng.random()
     if r < 0.3:
         fee = {"kind": "zero"}
@@ -135,6 +135,8 @@ def generate(rng, focus, tier="quick"):
         "ccy": rng.choice(["USD", "USD", "GBP", "EUR"]),
         "np_qty": rng.random() < 0.2,
         "print_events": rng.random() < 0.15,      # the library's default is to print every event
+        "int_ids": rng.random() < 0.5,
+        "int_amounts": rng.random() < 0.2,
     }
     ops = []
     sh = {"pids": [], "now": start, "pending": 0, "held": set(), "quotes": dict(
@@ -472,6 +474,7 @@ def _build(cfg):
     s.broker = SimulatedBroker(t0, s.exchange, s.qb, account_id="sim", base_currency=s.ccy,
                                initial_funds=cfg["initial_funds"], fee_model=s.fee)
     s.captured = []       # transactions seen at the portfolio seam during the current op
+    s.int_amounts = cfg.get("int_amounts", False)
     return s
 
 
@@ -537,7 +540,10 @@ def _snap_diff(a, b):
 
 def _resolve_amt(spec, s, m, pid):
     if "v" in spec:
-        return float(spec["v"])
+        v = float(spec["v"])
+        if getattr(s, "int_amounts", False) and v == int(v):
+            return int(v)         # whole amounts handed over as Python ints
+        return v
     if spec["of"] == "master":
         base = float(s.broker.get_account_cash_balance(s.ccy))
     else:
@@ -778,7 +784,9 @@ class Exec(object):
             self.refused("dup_portfolio", lambda: s.broker.create_portfolio(pid),
                          (ValueError,), "create_portfolio")
             return True
-        ok, exc = self._call(s.broker.create_portfolio, pid, "name-" + pid)
+        # an id made of digits is handed over as an int now and then (create_portfolio documents str(id))
+        arg = int(pid) if (pid.isdigit() and not pid.startswith("0") and self.cfg.get("int_ids")) else pid
+        ok, exc = self._call(s.broker.create_portfolio, arg, "name-" + pid)
         ctx.event("mkpf", pid, ok)
         if not ok:
             for pr in ("C01", "C15"):
